@@ -1461,9 +1461,13 @@ def _clone_doc_with_one_region(doc: model.ContentDocument, region_id: str):
     # * the element has children and the associated region is neither the default nor the root region
     # * the element has no children and the associated region is not the root region
 
+    # the children of ruby containers are always retained, possibly without their content, so that
+    # the ruby container remains valid
+
     if (
         associated_region is not selected_region and
-        (not element.has_children() or associated_region is not None)
+        (not element.has_children() or associated_region is not None) and
+        not isinstance(element, (model.Rb, model.Rbc, model.Rt, model.Rtc, model.Rp))
       ):
       return None
 
